@@ -916,6 +916,34 @@ def r8(ctx):
     except (Unfoldable, Raised, Exception) as e_:
         ctx.emit('C17-R8', False, BINCOUNTS, f, f'get_bins_from_bed_dict is outside the interpreted subset ({type(e_).__name__}: {str(e_)[:80]})', key='blacklist-loader-complete', undecided=True)
         return
+    # the reader itself: plain and gzip-compressed BED files give the same (contig, start, end) records - contig names as text, so that they are the keys
+    # the per-contig lookup uses (a file opened in binary mode yields bytes names, which match no contig: the blacklist is silently ignored)
+    g = ctx.fn(BINCOUNTS, 'get_bins_from_bed_iter')
+    lines = ['chr1\t5\t9\n', 'chr2\t0\t3\n', 'chr1\t20\t25\textra\n']
+    want_recs = [('chr1', 5, 9), ('chr2', 0, 3), ('chr1', 20, 25)]
+    rbad = None
+    try:
+        for path in ('black.bed', 'black.bed.gz'):
+            def fhook(ev, call, env):
+                d = dotted(call.func) or ''
+                if d in ('gzip.open', 'open'):
+                    a = [ev.ev(x, env) for x in call.args]
+                    kw = {k.arg: ev.ev(k.value, env) for k in call.keywords if k.arg}
+                    mode = a[1] if len(a) > 1 else kw.get('mode', 'rb' if d == 'gzip.open' else 'r')
+                    text = 't' in mode or (d == 'open' and 'b' not in mode)
+                    return [l_ if text else l_.encode() for l_ in lines]
+                return NotImplemented
+            got = [tuple(x) for x in run_function(g, [path], env={}, call_hook=fhook, budget=20000)]
+            n += 1
+            if got != want_recs and rbad is None:
+                rbad = {'file': path, 'records read': got, 'expected': want_recs}
+    except (Unfoldable, Raised, Exception) as e_:
+        ctx.emit('C17-R8', False, BINCOUNTS, g, f'get_bins_from_bed_iter is outside the interpreted subset ({type(e_).__name__}: {str(e_)[:80]})', key='blacklist-reader-text', undecided=True)
+        rbad = 'undecided'
+    if rbad != 'undecided':
+        ctx.emit('C17-R8', rbad is None, BINCOUNTS, g, 'get_bins_from_bed_iter reads plain and gzip-compressed BED files to the same text records' if rbad is None else
+                 f'get_bins_from_bed_iter: {rbad} - contig names read as bytes match no contig, the blacklist of a compressed BED file is silently ignored and the bins cover blacklisted bases',
+                 key='blacklist-reader-text', witness=rbad, what='get_bins_from_bed_iter: a gzip-compressed blacklist is read in binary mode and never matches a contig')
     ctx.counters['interpreted_cases'] = ctx.counters.get('interpreted_cases', 0) + n
     ctx.emit('C17-R8', bad is None, BINCOUNTS, f, f'get_bins_from_bed_dict on {n} record lists: every record ends up under its contig, in file order' if bad is None else
              f'get_bins_from_bed_dict loses blacklisted intervals: {bad} - the tiler then emits bins over blacklisted bases', key='blacklist-loader-complete', witness=bad,
